@@ -2,7 +2,8 @@ import Model.Color
 /-! Structural model: v_frame's `PlaneConfig::new` / `Plane::new` / `index` / `p` / `data_origin` / `PlaneIter` as far as
 the crate uses them, `YuvConfig`, `fix_unspecified_data` with the two guess functions, `Yuv::new`, and the two plane
 loops `ycbcr_to_ypbpr` / `ypbpr_to_ycbcr` as structural recursion with every unchecked access an explicit outcome.
-`usize` is modelled as `Nat` (theorems carry the size hypotheses under which no `usize` operation overflows). -/
+`usize` is modelled as `Nat` (theorems carry the size hypotheses under which no `usize` operation overflows); the one
+product the decoder computes before any bounds are known, the allocation size `w * h`, is modelled with its wrap-around. -/
 namespace FrameM
 open Mat32 ColorM
 
@@ -77,10 +78,14 @@ structure Yuv where
   ts : Nat
 deriving Repr
 
-/-- `covers_geometry` -/
+def USIZE_MAX : Nat := 18446744073709551615
+
+/-- `covers_geometry`: the visible area `width * height` is representable (`checked_mul`; the conversions allocate and index
+that many pixels) and the buffer holds the last visible sample -/
 def Plane.covers (p : Plane) : Bool :=
   let rows := if p.cfg.width = 0 ∨ p.cfg.height = 0 then 0 else p.cfg.height - 1
   let cols := if p.cfg.width = 0 ∨ p.cfg.height = 0 then 0 else p.cfg.width
+  decide (p.cfg.width * p.cfg.height ≤ USIZE_MAX) &&
   decide ((p.cfg.yorigin + rows) * p.cfg.stride + p.cfg.xorigin + cols ≤ p.data.size)
 
 /-- one row of the `PlaneIter` scan `any(|pix| pix > max_value)`, `k` samples remaining -/
@@ -176,7 +181,9 @@ def ycbcrToYpbpr (yuv : Yuv) : Out (Array V3) :=
   if yuv.y.origin > yuv.y.data.size ∨ yuv.u.origin > yuv.u.data.size ∨ yuv.v.origin > yuv.v.data.size then .panic .planeIndex
   else
     decRows yuv.y yuv.u yuv.v w h yuv.cfg.ssx yuv.cfg.ssy
-      (fun a b cc => ⟨toF32Luma a l.1 l.2, toF32Chroma b c.1 c.2, toF32Chroma cc c.1 c.2⟩) h (Array.replicate (w * h) ⟨0, 0, 0⟩)
+      (fun a b cc => ⟨toF32Luma a l.1 l.2, toF32Chroma b c.1 c.2, toF32Chroma cc c.1 c.2⟩) h
+      -- `vec![..; w * h]`: the product wraps in optimised builds (`Yuv::new` rejects the frames for which it would)
+      (Array.replicate ((w * h) % (USIZE_MAX + 1)) ⟨0, 0, 0⟩)
 
 -- encode direction ---------------------------------------------------------------------------
 
@@ -216,8 +223,6 @@ def encRows (inp : Array V3) (w h ssx ssy : Nat) (fl fc : Nat → Nat) : Nat →
     | .ok st' => encRows inp w h ssx ssy fl fc k st'
     | .ub s => .ub s
     | .panic e => .panic e
-
-def USIZE_MAX : Nat := 18446744073709551615
 
 /-- `ypbpr_to_ycbcr` -/
 def ypbprToYcbcr (inp : Array V3) (w h : Nat) (cfg : Cfg) (ts : Nat) : Out Yuv :=
